@@ -62,6 +62,32 @@ def run(ctx):
         ctx.ob("handle_invocation|consumes-passed-items", {"consume_bucket", "consume_proof", "consume_address_reservation"} <= calls,
                f"handle_invocation reaches {sorted(calls & {'consume_bucket','consume_proof','consume_address_reservation','get_existing_named_address','handle_new_intent'})}", F.fns[n].loc())
 
+    ctx.rule("argument origin (per occurrence): in handle_invocation the item handed to consume_bucket / consume_proof / consume_address_reservation "
+             "is the payload of the traversal event itself (`@Bucket` / `@Proof` / `@AddressReservation` of next_event()), so *every occurrence* in the "
+             "argument payload is consumed — an intermediate set would collapse a bucket passed twice, which the run-time processor takes twice")
+    if ctx.anchor(n):
+        b = ctx.body(n)
+        for fn, tag in (("consume_bucket", "@Bucket"), ("consume_proof", "@Proof"), ("consume_address_reservation", "@AddressReservation")):
+            cs = b.calls(re.escape(SI) + "::" + fn + "$")
+            ok = bool(cs)
+            det = []
+            for bb, t in cs:
+                ats = b.origins(t["args"][2])
+                good = bool(ats) and all(a.kind == "call" and a.what.endswith("::next_event") and tag in a.proj for a in ats)
+                ok = ok and good
+                det.append(sorted({(a.what.rsplit("::", 1)[-1] if a.kind == "call" else a.kind) for a in ats}))
+            if not ok and cs:
+                # an intermediate *sequence* keeps every occurrence; only a set/map collapses repeats
+                setops = b.calls(r"(IndexSet|BTreeSet|HashSet|IndexMap|BTreeMap|HashMap)(<[^>]*>)?::(insert|extend|from_iter)$")
+                for bb, t in b.calls(r"::collect$|::from_iter$"):
+                    d = t.get("d")
+                    ty = b.locals[d[0]][0] if d and isinstance(d[0], int) else ""
+                    if re.search(r"IndexSet|BTreeSet|HashSet|IndexMap|BTreeMap|HashMap", str(ty)):
+                        setops.append((bb, t))
+                ok = not setops
+                det.append("intermediate collection: " + ("set/map (collapses repeats)" if setops else "sequence"))
+            ctx.ob(f"handle_invocation|{fn}-per-occurrence", ok, f"{len(cs)} {fn} site(s); item originates from {det}", b.loc(cs[0][0]) if cs else b.loc())
+
     ctx.rule("T7: every ManifestValidationError variant is produced; T2: the end-of-manifest checks (dangling bucket / reservation, pending "
              "next-call assertion, subintent must end with yield) lie on every path to the interpreter's success")
     check_variants_live(ctx, "ManifestValidationError", M + "ManifestValidationError", r"radix_transactions::", conditional=False)
